@@ -614,6 +614,10 @@ func genPyroCase(r *rand.Rand, gi int) (pc pyroCase, class string) {
 	used := map[uint64]bool{}
 	seen := map[string]bool{}
 	tagVals := []string{"a", "b", "ab", "prod"}
+	if gi%5 == 2 {
+		// values a selector can only carry as escapes (the selector text is written with %q: \x01, \u200b, \a, \v)
+		tagVals = append(tagVals, "a\x01", "z\u200bw", "q\vr", "bell\a")
+	}
 	mode := gi % 7
 	for i := 0; i < n; i++ {
 		s := &pSeries{FP: randFP(r, used), Name: pick(r, profNames[:3]), PeriodType: pick(r, profPTypes[:2]), PeriodUnit: pick(r, profPUnits[:2]),
